@@ -18,7 +18,7 @@ CHECKS = {
    note="Keys minimal (conforming writers); wire types 3/4 unsupported by design. Trusted: the two references (cross-checked against each other on every case)."),
  "C03": dict(level="model_checking", design="DESIGN.md §7 C03",
    technique="explicit-state BFS over the real csproto.Decoder: every operation in every reachable decoder state, per buffer of an exhaustive bounded family; reference-model comparison per transition",
-   text="For every byte string of length <= 4 (thorough 5) over a 16-symbol wire alphabet (x4 paddings), BFS from NewDecoder over states keyed by all Decoder struct fields; all ~120 operations applied in every reachable state, so call sequences of every length are covered per buffer. Oracle per transition: no panic, cursor in [0,len], err==nil => reference item exists with equal value and advance == item length, over-long declared length => error, nested callee not invoked for over-long length. Declared-length allocation family runs in an address-space-limited subprocess with a per-call TotalAlloc budget; worker death is attributed to the executing case.",
+   text="For every byte string of length <= 4 (thorough 5) over a 16-symbol wire alphabet (no padding, the same as a sub-slice with spare capacity, three 10-byte paddings), BFS from NewDecoder over states keyed by all Decoder struct fields; all ~120 operations applied in every reachable state, so call sequences of every length are covered per buffer. Oracle per transition: no panic, cursor in [0,len], err==nil => reference item exists with equal value and advance == item length, over-long declared length => error, nested callee not invoked for over-long length. Declared-length allocation family runs in an address-space-limited subprocess with a per-call TotalAlloc budget; worker death is attributed to the executing case.",
    note="Inputs longer than the bound / bytes outside the alphabet not covered. State key = raw bytes of the Decoder struct. Every explored transition is an execution of the real code (traces_validated_against_impl == transitions)."),
 
  "C13": dict(level="exploration", design="DESIGN.md §7 C13",
@@ -45,7 +45,7 @@ CHECKS = {
    note="Per case harness guards (reference round trip, struct read-back) turn harness faults into internal errors, not violations. The reference runtime (google.golang.org/protobuf v1.36.4) is trusted."),
  "C20": dict(level="exploration", design="DESIGN.md §7 C20",
    technique="exhaustive enumeration of rendered layouts / short strings / short byte strings / value trees x path subsets against a reference grammar and a reference wire walk; protodump's dumpProto driven through an overlay-injected test file and the real binary",
-   text="Hex: all byte strings <= 3 over 5 symbols x every whitespace/comment/newline/case layout at every gap (15 M renderings quick) and every string <= 6 over a 9-character alphabet against a reference grammar. protodump: dumpProto on all byte strings <= 4 (5) over the 16-symbol wire alphabet x 5 path configurations and value trees (depth 2/3) x every subset of expand/strings paths incl. absent/prefix/over-long/wildcard paths; output parsed tolerantly and compared with a refwire-based reference walk; CLI forms -file, redirected and piped stdin, malformed => exit 1 without panic.",
+   text="Hex: all byte strings <= 3 over 5 symbols x every whitespace/comment/newline/case layout at every gap (15 M renderings quick) every string <= 6 over a 9-character alphabet against a reference grammar, and lines of length 2^k-1, 2^k, 2^k+1 up to 2^18. protodump: dumpProto on all byte strings <= 4 (5) over the 16-symbol wire alphabet x 5 path configurations and value trees (depth 2/3) x every subset of expand/strings paths incl. absent/prefix/over-long/wildcard paths; output parsed tolerantly and compared with a refwire-based reference walk; CLI forms -file, redirected and piped stdin, malformed => exit 1 without panic.",
    note="Undocumented combinations (same path in -strings and -expand; line break inside a byte) accept both behaviours. dumpProto is reached through a test file injected with go test -overlay; the binary is rebuilt from /repo per run."),
 
  "C19": dict(level="exploration", design="DESIGN.md §7 C19",
@@ -63,7 +63,7 @@ CHECKS = {
    note="Inputs the generated Unmarshal rejects are C06/C08's business."),
  "C10": dict(level="exploration", design="DESIGN.md §7 C10",
    technique="exhaustive corpus enumeration with buffer-clobber histories (complement, zero, reuse) and snapshot comparison; lazyproto clause decided by the C14/C15 explorations",
-   text="Every corpus type x runtime x value tree (+ unknown-field variant): generated Unmarshal (default options) from a private buffer, snapshot of the decoded tree, then the buffer is overwritten with its complement, zeroed, and recycled for another decode; the tree must stay equal to the snapshot. The lazyproto half (every accessor in safe mode after the caller clobbers its buffer; values re-verified after every later operation and under all interleavings) is exercised in C14 and C15.",
+   text="Every corpus type x runtime x value tree (+ unknown-field variant): generated Unmarshal (default options) from a private buffer, snapshot of the decoded tree, then the buffer is overwritten with its complement, zeroed, and recycled for another decode; the tree must stay equal to the snapshot. lazyproto clause: 18 messages x {Decoder.Decode safe mode, Decode()} x {complement, zero, recycled buffer}: all 26 accessors and NestedResults/NestedResult decoded lazily after the clobber must still give the original values (C14/C15 additionally clobber the buffer in every explored history/schedule).",
    note="Unsafe/fast mode is opt-in and not checked. Alias detection is by content clobbering (complement pattern changes every byte)."),
 
  "C17": dict(level="exploration", design="DESIGN.md §7 C17",
@@ -96,8 +96,8 @@ CHECKS = {
    note="Decoded/cloned messages are compared bit-exactly through reflection (the runtimes' Equal treats NaN as unequal); csproto.Equal itself is compared with the runtime's Equal. Sequential consistency assumed; sync.Map internals are trusted."),
 
  "C09": dict(level="model_checking", design="DESIGN.md §7 C09",
-   technique="exhaustive operation-sequence exploration (all histories to depth 4 over a 18/27-operation alphabet, replayed on fresh real messages, reference-model comparison per observer, mechanism attribution by cache neutralisation) + controlled-scheduler exploration of concurrent Size/Marshal with the generated code's atomics as scheduling points; -race pass as sampling complement",
-   text="Histories: every sequence of length 4 over {set/clear scalar, grow/shrink string across the 127/128 boundary, set/clear nested message, mutate nested message only, append/truncate list, mutate list element only, Size, Marshal, MarshalTo, csproto.Size/Marshal, runtime Size/Marshal, Unmarshal x2, Reset, Clone-and-continue} on the recursive corpus message of p2 and p3 for every runtime; every observer must return the reference marshal of a fresh tree built from the model contents. Schedules: 2-3 goroutines calling Size/Marshal/csproto.Marshal/runtime Size/Marshal on a shared nested message (caches cold / warm / written by the runtime), preemption bound 3 (5) resp. 2 (3), scheduling points at every atomic load/store of the generated code.",
+   technique="exhaustive operation-sequence exploration (all histories to depth 4 over a 19/28-operation alphabet, replayed on fresh real messages, reference-model comparison per observer, mechanism attribution by cache neutralisation) + controlled-scheduler exploration of concurrent Size/Marshal with the generated code's atomics as scheduling points; -race pass as sampling complement",
+   text="Histories: every sequence of length 4 over {set/clear scalar, grow/shrink string across the 127/128 boundary, set/clear nested message, mutate nested message only, append/truncate list, mutate list element only, Size, Marshal, MarshalTo, csproto.Size/Marshal, runtime Size/Marshal, Unmarshal x3 (one input with unknown fields), Reset, Clone-and-continue} on the recursive corpus message of p2 and p3 for every runtime; every observer must return the reference marshal of a fresh tree built from the model contents. Schedules: 2-3 goroutines calling Size/Marshal/csproto.Marshal/runtime Size/Marshal on a shared nested message (caches cold / warm / written by the runtime), preemption bound 3 (5) resp. 2 (3), scheduling points at every atomic load/store of the generated code.",
    note="Failing histories are attributed to the known size-cache mechanism only if re-running them with all size-cache words zeroed right before the failing call passes AND a cache-writing call precedes the last mutation; anything else is a new violation. Runtime calls are atomic steps of the scheduler; the -race pass is sampling."),
 }
 
